@@ -55,12 +55,17 @@ class Task:
 class Bounded:
     """Bounded stand-in executed natively (never counted as proved)."""
 
-    def __init__(self, name, family, params_quick, params_thorough, bound_text):
+    def __init__(self, name, family, params_quick, params_thorough, bound_text, only_when_undecided=False,
+                 known_inputs=None):
         self.name = name
         self.family = family
         self.params_quick = params_quick
         self.params_thorough = params_thorough
         self.bound_text = bound_text
+        # fallback: run only when the deductive part left something undecided (a change to /repo moved a function
+        # outside the subset); if it then finds nothing the run exits 0 with level `exploration` (DESIGN 2.6 / 2.8)
+        self.only_when_undecided = only_when_undecided
+        self.known_inputs = known_inputs  # callable(violation dict) -> dict of named inputs for known-finding classes
 
 
 class Property:
@@ -134,6 +139,13 @@ def compile_pred(expr):
         return r.t
 
     return pred
+
+
+def concrete_pred(expr, values):
+    """The witness class of a known finding evaluated on concrete inputs (bounded parts)."""
+    env = {"And": And, "Or": Or, "Not": Not, "Implies": Implies, "Eq": Eq}
+    env.update(values)
+    return bool(eval(compile(expr, "<known-finding>", "eval"), {"__builtins__": {}}, env))
 
 
 def known_classes_for(known, task_name):
@@ -273,7 +285,11 @@ def run_check(mod, prop, tier, seed, a, t0):
         solver_s += r["solver_s"]
         if t.expect_refuted:
             if not any(v["status"] == "refuted" for v in r["vcs"]):
-                mustfail_missing.append(t.name)
+                if r["outside"]:
+                    # the guard itself fell outside the subset: undecided, not a vacuous success
+                    unknown.append({"task": t.name, "name": f"{t.name}.<guard>", "detail": "outside subset: " + r["outside"][0][1]})
+                else:
+                    mustfail_missing.append(t.name)
             continue
         for (p, why) in r["outside"]:
             unknown.append({"task": t.name, "name": f"{t.name}.<path {p}>", "detail": "outside subset: " + why})
@@ -329,14 +345,43 @@ def run_check(mod, prop, tier, seed, a, t0):
     # ---- bounded stand-ins (native)
     bounded_out = []
     bounded_viol = []
+    fallback_used = False
     for b in prop.bounded:
+        if b.only_when_undecided and not unknown:
+            continue
         params = dict(b.params_thorough if tier == "thorough" else b.params_quick)
         params["seed"] = seed
         o = run_native(b.family, [params], timeout=3000)[0]
-        bounded_out.append({"name": b.name, "bound": b.bound_text, "label": "bounded (not counted as proved)",
-                            "cases": o.get("cases", 0), "violations": len(o.get("violations", [])),
-                            "known": o.get("known", []), "samples": o.get("samples", [])[:3]})
+        if "harness_error" in o:
+            errors.append({"task": "bounded." + b.name, "error": o["harness_error"]})
+            continue
+        if b.only_when_undecided:
+            fallback_used = True
+        kn = list(o.get("known", []))
+        viols = []
         for v in o.get("violations", []):
+            # known-finding classes apply to the bounded part as well (evaluated concretely on the failing input)
+            hit = None
+            if b.known_inputs is not None:
+                vals = b.known_inputs(v)
+                for e in known:
+                    obs_ = e.get("obligations") or [e.get("obligation")]
+                    if not any(c in obs_ for c in v.get("clauses", [])):
+                        continue
+                    try:
+                        if concrete_pred(e["when"], vals) and all(c in obs_ for c in v.get("clauses", [])):
+                            hit = e["id"]
+                    except Exception:
+                        pass
+            if hit:
+                if hit not in kn:
+                    kn.append(hit)
+            else:
+                viols.append(v)
+        bounded_out.append({"name": b.name, "bound": b.bound_text, "label": "bounded (not counted as proved)",
+                            "cases": o.get("cases", 0), "violations": len(viols),
+                            "known": kn, "samples": o.get("samples", [])[:3]})
+        for v in viols:
             bounded_viol.append((b, v))
 
     # ---- report
@@ -389,7 +434,8 @@ def run_check(mod, prop, tier, seed, a, t0):
         violations += 1
         path = os.path.join(OUT, "replays", f"{pid}_bounded_{b.name}_{violations}.json")
         with open(path, "w") as f:
-            json.dump({"property": pid, "obligation": "bounded." + b.name, "family": b.family,
+            json.dump({"property": pid, "obligation": "bounded." + b.name + "." + "+".join(v.get("clauses", [])),
+                       "family": v.get("replay_family", b.family), "clauses": v.get("clauses", []),
                        "native_case": v.get("case"), "observed": v, "reproduced": True}, f, indent=1, default=str)
         print(f"VIOLATION property={pid} replay={path}")
     for u in unknown[:20]:
@@ -411,6 +457,12 @@ def run_check(mod, prop, tier, seed, a, t0):
         print(f"CHECKER-ERROR property={pid} zero obligations generated")
         internal = True
     level = "proof" if (not unknown and not internal and violations == 0 and n_dis == n_vc) else "other"
+    if unknown and fallback_used and not internal and violations == 0:
+        # the deductive check is incomplete on this tree; the bounded stand-in ran instead and found nothing
+        level = "exploration"
+        print(f"NOTE property={pid}: {len(unknown)} obligation(s) undecided on this tree; bounded fallback "
+              f"({', '.join(b['name'] for b in bounded_out)}) explored {sum(b['cases'] for b in bounded_out)} cases, "
+              "no violation - no proof is claimed for this run")
 
     funcs = []
     for q in prop.functions:
@@ -466,6 +518,6 @@ def run_check(mod, prop, tier, seed, a, t0):
         return 3
     if violations:
         return 1
-    if unknown:
+    if unknown and not fallback_used:
         return 2
     return 0
